@@ -362,6 +362,50 @@ def check(ctx) -> None:
         good = _num(dt) and _num(df) and ((dt == 0) != (df == 0)) and ((dt == 0) == expected)
         ctx.check("C04.numeric", eem, good, f"{desc}: true={dt} false={df} but the interpreter {'enters' if expected else 'skips'} the handler", what=f"{desc}: true={dt} false={df}", stmt=f"[partition] {desc}")
 
+    # bool predicate over a partition of truth-tested values (incl. objects whose truth value and size disagree)
+    ebp = repo.func(TR, "ExecutionTracer.executed_bool_predicate")
+    bparams = [a.arg for a in ebp.args.args]
+    BOOL_CASES = [("True", True), ("False", False), ("0", 0), ("7", 7), ("-3", -3), ("0.0", 0.0), ("2.5", 2.5), ("nan", NAN), ("10**400", BIG), ("''", ""), ("'ab'", "ab"), ("[]", []), ("[1, 2]", [1, 2]),
+                  ("None", None), ("object()", object()), ("truthy object of size 0", _TruthyEmpty()), ("falsy object of size 3", _FalsyFull()), ("1+2j", 1 + 2j), ("0j", 0j)]
+    for label, val in BOOL_CASES:
+        expected = bool(val)
+        it = peval.Interp(resolver=resolve, identity=("tt.unwrap",), sinks=("self._update_metrics",), native_types=(_TruthyEmpty, _FalsyFull))
+        env = {"self": peval.Token("self"), bparams[1]: val, bparams[2]: 0}
+        desc = f"BOOL({label})"
+        try:
+            it.block(ebp.body, env, tmod)
+        except peval.Raises as e2:
+            ctx.fail("C04.numeric", ebp, f"{desc}: raises {e2.name} ({e2.detail[:50]}) although the truth test of the module under test simply yields {expected}", stmt=f"[partition] {desc}")
+            continue
+        except peval.Undecided as e2:
+            ctx.undecide("C04.numeric", ebp, f"{desc}: {e2}")
+            continue
+        rows += 1
+        _n, args, kwargs = it.sink_calls[-1]
+        vals = dict(zip(um_params, args))
+        vals.update(kwargs)
+        dt, df = vals.get("distance_true"), vals.get("distance_false")
+        good = _num(dt) and _num(df) and dt >= 0 and df >= 0 and ((dt == 0) != (df == 0)) and ((dt == 0) == expected)
+        ctx.check("C04.numeric", ebp, good, f"{desc}: true={dt} false={df} but the interpreter takes the {'true' if expected else 'false'} outcome", what=f"{desc}: true={dt} false={df}", stmt=f"[partition] {desc}")
+
+
+class _TruthyEmpty:
+    """Truth value and size disagree (e.g. an always-truthy result set that is empty)."""
+
+    def __bool__(self):
+        return True
+
+    def __len__(self):
+        return 0
+
+
+class _FalsyFull:
+    def __bool__(self):
+        return False
+
+    def __len__(self):
+        return 3
+
 
 def _in_body(if_node, stmt):
     return any(stmt is x for b in if_node.body for x in ast.walk(b))
